@@ -305,6 +305,8 @@ val pr_old : nat -> expr -> tok list
 
 val seq_old : nat -> exprs -> tok list
 
+val seqt_old : nat -> exprs -> tok list -> tok list
+
 val items_old : nat -> items -> tok list
 
 val pr_new : nat -> expr -> tok list
